@@ -228,8 +228,8 @@ mod parser {
                     assert!(want.is_some(), "accepted a string outside the grammar / limits");
                     let (wc, we) = want.unwrap();
                     assert!(c == wc, "wrong coefficient");
-                    // exponents beyond +-10^6 are only capped (they are rejected by every caller: > 38)
-                    assert!(if we > 1_000_000 { e > 38 } else { e as i64 == we }, "wrong exponent");
+                    // exponents of 10^6 and more are only capped (the oracle stops accumulating there) (they are rejected by every caller: > 38)
+                    assert!(if we >= 1_000_000 { e > 38 } else { e as i64 == we }, "wrong exponent");
                 }
                 Err(e) => {
                     assert!(want.is_none(), "rejected a valid literal");
